@@ -55,8 +55,9 @@ int _right_descent(const dsplib::arr_real& spec, int idx) {
 
 ToneInfo _get_psd_tone(const dsplib::arr_real& spec, real_t tone_freq) {
     const int n = spec.size();
-    int freq_num = (int)std::round(tone_freq * n);
-    freq_num = min(freq_num, spec.size() - 1);
+    //clamp in floating point first: the conversion of NaN or an out-of-range value to int is undefined
+    const real_t fpos = std::round(tone_freq * n);
+    int freq_num = (fpos >= 0) ? ((fpos < n) ? int(fpos) : (n - 1)) : 0;
     freq_num = max(freq_num, 0);
 
     const int ipeak = _locate_peak(spec, freq_num);
